@@ -16,6 +16,16 @@ SENSITIVE_TYPES = (str, bytes)
 EXTRA_SENSITIVE = []  # predicates
 
 
+def id_hashed(x):
+    """Predicate for EXTRA_SENSITIVE: objects that use the default identity hash.  A set of such objects is ordered by
+    memory addresses - not by the hash seed, but not by the input either (whatshap.core.Read wrappers in
+    haplotag's `reads_to_consider`).  Opt-in: `nondet.EXTRA_SENSITIVE[:] = [nondet.id_hashed]`."""
+    t = type(x)
+    if t in (int, float, bool, complex, type(None), str, bytes, tuple, frozenset):
+        return False
+    return getattr(t, "__hash__", None) is object.__hash__
+
+
 def is_seed_sensitive(x):
     if isinstance(x, SENSITIVE_TYPES):
         return True
